@@ -165,3 +165,25 @@ func VerifBoltValueIDs(t *BoltTransport) (keyIDs, valueIDs []string) {
 // VerifSubPending: updates waiting in the subscriber's buffer and live queue (read while every other
 // thread is parked; no side effect).
 func VerifSubPending(s *LocalSubscriber) int { return len(s.out) + len(s.liveQueue) }
+
+// VerifBoltRaw: every (key, value) of the bucket as stored, in cursor order (copies).
+func VerifBoltRaw(t *BoltTransport) (keys, values [][]byte) {
+	_ = t.db.View(func(tx *bolt.Tx) error {
+		b := tx.Bucket([]byte(t.bucketName))
+		if b == nil {
+			return nil
+		}
+		c := b.Cursor()
+		for k, v := c.First(); k != nil; k, v = c.Next() {
+			keys = append(keys, append([]byte{}, k...))
+			values = append(values, append([]byte{}, v...))
+		}
+
+		return nil
+	})
+
+	return
+}
+
+// VerifBoltLastEventID exposes the in-memory lastEventID field.
+func VerifBoltLastEventID(t *BoltTransport) string { return t.lastEventID }
